@@ -472,6 +472,9 @@ async fn tcp_pump(
             CutHow::Rst => {
                 tcpq::set_reset_on_close(r.as_ref().as_raw_fd());
                 tcpq::set_reset_on_close(w.as_ref().as_raw_fd());
+                // no FIN before the RST: dropping an `OwnedWriteHalf` would shut the write side down
+                w.forget();
+                return;
             }
             CutHow::HalfClose => {
                 let _ = w.shutdown().await;
@@ -974,6 +977,7 @@ async fn main() {
     let mut st = Stats::default();
     let tcp = args.u64("tcp", 0) == 1;
     TCP.store(tcp, Ordering::Relaxed);
+    tcpq::STRICT.store(tcp, Ordering::Relaxed);
     for c in 0..cases {
         if tcp {
             tcp_case(&mut log, &mut st, &mut rng, c).await;
